@@ -41,7 +41,11 @@ def setup():
         import mockturtle_wrapper  # noqa: F401
     import logging
 
-    logging.disable(logging.CRITICAL)
+    # the package's log records are swallowed here (nothing is printed), but logging itself stays enabled:
+    # the level of the package logger is an environment dimension that report.Partial.case varies
+    lg = logging.getLogger("cirbo")
+    lg.addHandler(logging.NullHandler())
+    lg.propagate = False
 
 
 def stubs_in_use():
